@@ -170,10 +170,36 @@ func runC20(c *core.Ctx) {
 	})
 	c.Check("C20-R2", "pdf.stream-extent-probes/eof", "in endstreamAt and trimTrailingEOL a short read at the end of the file (io.EOF) is not a failure: only errors other than io.EOF leave the probe early", func(o *core.Ob) {
 		for _, name := range []string{"endstreamAt", "trimTrailingEOL"} {
-			fn := c.Prog.Func("pdf", name)
+			fn := c.Prog.FuncOpt("pdf", name)
+			folded := false
+			if fn == nil && name == "trimTrailingEOL" {
+				// the helper was folded into its caller
+				fn = c.Prog.Func("pdf", "(*scanner).ReadStreamData")
+				folded = true
+			} else if fn == nil {
+				fn = c.Prog.Func("pdf", name)
+			}
 			g := fn.Graph()
 			info := fn.Info()
 			ra := callVerticesSuffix(g, ".ReadAt")
+			if folded {
+				var small []callV
+				for _, cs := range ra {
+					if len(cs.Call.Args) != 2 {
+						continue
+					}
+					e := cs.Call.Args[0]
+					if sl, ok := ast.Unparen(e).(*ast.SliceExpr); ok {
+						e = sl.X
+					}
+					if obj := core.ObjOf(info, e); obj != nil {
+						if arr, ok := obj.Type().Underlying().(*types.Array); ok && arr.Len() <= 4 {
+							small = append(small, cs)
+						}
+					}
+				}
+				ra = small
+			}
 			o.Require(len(ra) >= 1, "%s has no ReadAt probe", name)
 			for _, cv := range ra {
 				o.At(fn.Site(cv.Call, "probe"))
